@@ -157,7 +157,10 @@ def gen_base_op(cfg, rs, enabled, swarm):
         return {'op': 'train_burst', 'n': rs.randint(6, 12), 'which': rs.choice(['net', 'both', 'both']),
                 'lam': rs.choice([0.0, 1e-3]), 'lr': rs.choice([0.01, 0.05])}
     if k == 'ckpt':
-        return {'op': rs.choice(['save_ckpt', 'load_ckpt', 'load_ckpt'])}
+        o = rs.choice(['save_ckpt', 'load_ckpt', 'load_ckpt', 'deepcopy_model'])
+        if o == 'load_ckpt' and rs.chance(0.3):
+            return {'op': 'load_ckpt', 'assign': True}
+        return {'op': o}
     if k == 'read_cost':
         return {'op': 'read_cost'}
     if k == 'read_summary':
